@@ -32,7 +32,13 @@ Inductive expr :=
 | EIs (a b : expr) | EIsNot (a b : expr)
 | ENotIn (a b : expr)                     (* a not in b (b a set) *)
 | EDictGet (d k : expr)                   (* d.get(k) *)
-| ERec (fs : list expr).                  (* _BreakerDecision(f1, f2, f3) *)
+| ERec (fs : list expr)                   (* _BreakerDecision(f1, f2, f3) *)
+| EOr (a b : expr)                        (* a or b *)
+| EEmptyDict                              (* {} *)
+| EDictCopy (e : expr)                    (* dict(e) *)
+| ESetLit (cs : list string)              (* {ErrorClass.A, ErrorClass.B} *)
+| ESetOf (e : expr)                       (* set(e) *)
+| ELock.                                  (* threading.Lock() *)
 
 Inductive stmt :=
 | SSkip
@@ -49,7 +55,11 @@ Inductive stmt :=
 | SCall (h : string) (args : list expr)   (* self.<h>(args) *)
 | SCallAssign (x : string) (h : string) (args : list expr)   (* x = self.<h>(args) *)
 | SWithLock (body : stmt)
-| SReturn (e : expr).
+| SReturn (e : expr)
+| SForItems (kx vx : string) (d : expr) (body : stmt)      (* for kx, vx in d.items(): body *)
+| SSetUpdateKeys (x : string) (d : expr)                   (* x.update(d.keys()) for a local set x *)
+| SAttrNewDeque (a : string)                               (* self.<a> = deque() *)
+| SRaise.                                                  (* raise ValueError(...) *)
 
 Definition env := list (string * val).
 Fixpoint lookup (x : string) (l : env) : val :=
@@ -118,6 +128,12 @@ Fixpoint eval (s : pst) (e : expr) : val :=
                     | VDict l, VC key => lookup key l
                     | _, _ => VN end
   | ERec fs => VRec (map (eval s) fs)
+  | EOr a b => if truthy (hp s) (eval s a) then eval s a else eval s b
+  | EEmptyDict => VDict []
+  | EDictCopy e => match eval s e with VDict l => VDict l | _ => VN end
+  | ESetLit cs => VSet cs
+  | ESetOf e => match eval s e with VSet l => VSet l | _ => VN end
+  | ELock => VN
   end.
 
 Inductive outcome := ONormal (s : pst) | OReturn (s : pst) (v : val) | ORaise (s : pst) | OFuel.
@@ -134,6 +150,16 @@ Fixpoint find_helper (h : string) (l : helpers) : option (list string * stmt) :=
   match l with [] => None | (n, d) :: r => if String.eqb h n then Some d else find_helper h r end.
 Fixpoint bind (ps : list string) (vs : list val) : env :=
   match ps, vs with p :: ps', v :: vs' => (p, v) :: bind ps' vs' | _, _ => [] end.
+
+(** for kx, vx in <dict>.items(): body -- [run] is the body *)
+Fixpoint for_items (run : pst -> outcome) (kx vx : string) (l : list (string * val)) (s : pst) : outcome :=
+  match l with
+  | [] => ONormal s
+  | (key, v) :: r => match run (set_local (set_local s kx (VC key)) vx v) with
+                     | ONormal s' => for_items run kx vx r s'
+                     | o => o
+                     end
+  end.
 
 Section Interp.
   Variable hs : helpers.
@@ -201,5 +227,17 @@ Section Interp.
                                  | inr o => o end
        | SWithLock body => go body s
        | SReturn e => OReturn s (eval s e)
+       | SForItems kx vx d body =>
+           match eval s d with
+           | VDict l => for_items (go body) kx vx l s
+           | _ => ORaise s
+           end
+       | SSetUpdateKeys x d =>
+           match lookup x (locals s), eval s d with
+           | VSet l, VDict kv => ONormal (set_local s x (VSet (l ++ map fst kv)%list))
+           | _, _ => ORaise s
+           end
+       | SAttrNewDeque a => ONormal (set_attr (set_heap s (hp s ++ [[]])%list) a (VRef (List.length (hp s))))
+       | SRaise => ORaise s
        end) c s.
 End Interp.
